@@ -1007,7 +1007,8 @@ func runC14(rc *runCtx) error {
 		return err
 	}
 	defer os.RemoveAll(tmp)
-	ports, err := c14FreePorts(24140, 4)
+	// four loopback ports from a window chosen by process id (two instances of this harness may run at once)
+	ports, err := c14FreePorts(20000+(os.Getpid()%60)*60, 4)
 	if err != nil {
 		return err
 	}
